@@ -18,11 +18,11 @@ use std::sync::Arc;
 use vcore::Report;
 
 fn base(mode: Mode, split: &[usize], ps: PsKind) -> Case {
-    Case { mode, idempotent: false, split: split.to_vec(), ps, faults: Vec::new(), consumer: Consumer::Eager, nodes: pg::NODES }
+    Case { mode, idempotent: false, split: split.to_vec(), ps, faults: Vec::new(), consumer: Consumer::Eager, nodes: pg::NODES, cached_metadata: false, metadata_anyway_on: None }
 }
 
 /// paging-state alphabets of the quick tier (thorough adds `mixed`); the rotation below walks this list
-const PSQ: [PsKind; 6] = [PsKind::OneByte, PsKind::Zero, PsKind::Ff, PsKind::Long, PsKind::Empty1, PsKind::Empty2];
+const PSQ: [PsKind; 9] = [PsKind::OneByte, PsKind::Zero, PsKind::Ff, PsKind::Long, PsKind::Empty1, PsKind::Empty2, PsKind::Const, PsKind::SamePrev1, PsKind::SamePrev2];
 
 fn gen_split(nmax: usize, thorough: bool) -> Vec<Case> {
     let kinds: Vec<PsKind> = if thorough { PsKind::ALL.to_vec() } else { PSQ.to_vec() };
@@ -34,10 +34,18 @@ fn gen_split(nmax: usize, thorough: bool) -> Vec<Case> {
                     if s.len() == 1 && *ps != kinds[0] {
                         continue; // a single page never shows a paging state
                     }
-                    if s.len() == 2 && *ps == PsKind::Empty2 {
+                    if (s.len() <= 2 && matches!(ps, PsKind::Empty2 | PsKind::SamePrev1)) || (s.len() <= 3 && *ps == PsKind::SamePrev2) {
                         continue; // identical to one-byte
                     }
                     v.push(base(mode, &s, *ps));
+                    // prepared pager with cached result metadata: the server honours "skip metadata" on every page /
+                    // attaches metadata anyway on page k (every k); alphabets that only differ in the bytes rotate
+                    if mode == Mode::Prepared && *ps == kinds[0] && (thorough || n <= 4) {
+                        v.push(Case { cached_metadata: true, ..base(mode, &s, *ps) });
+                        for k in 0..s.len() {
+                            v.push(Case { cached_metadata: true, metadata_anyway_on: Some(k), ..base(mode, &s, *ps) });
+                        }
+                    }
                 }
             }
         }
@@ -83,7 +91,14 @@ fn gen_fault(nmax1: usize, nmax2: Option<usize>) -> Vec<Case> {
                     let ps = PSQ[i % PSQ.len()];
                     i += 1;
                     for mode in Mode::ALL {
-                        let c = Case { idempotent: idem, faults: faults.clone(), ..base(mode, &s, ps) };
+                        // prepared pager: cached result metadata off / on / on with the server attaching metadata anyway
+                        // on a rotating page
+                        let (cached_metadata, metadata_anyway_on) = match (mode, i % 3) {
+                            (Mode::Prepared, 1) => (true, None),
+                            (Mode::Prepared, 2) => (true, Some((i / 3) % s.len())),
+                            _ => (false, None),
+                        };
+                        let c = Case { idempotent: idem, faults: faults.clone(), cached_metadata, metadata_anyway_on, ..base(mode, &s, ps) };
                         if pg::admissible(&c) {
                             v.push(c);
                         }
